@@ -68,9 +68,10 @@ func (p *Paragraph) WriteTo(out io.Writer) error {
 				lines[i] = "."
 			}
 		}
-		if strings.HasPrefix(lines[0], " ") || strings.HasPrefix(lines[0], "\t") {
-			/* The reader trims the text on the field's own line, so an
-			 * indented first line has to start on the next line. */
+		if strings.TrimLeftFunc(lines[0], unicode.IsSpace) != lines[0] {
+			/* The reader trims the text on the field's own line, so a first
+			 * line that begins with white space of any kind has to start on
+			 * the next line. */
 			lines = append([]string{""}, lines...)
 		}
 		value = strings.Join(lines, "\n ")
